@@ -38,7 +38,7 @@ def report : List (String × String × List String × List String) :=
       pr (c14_holdExtraction.filter fun x => !recordedHoldExtraction.contains x),
       pr (c14_holdExtraction.filter fun x => recordedHoldExtraction.contains x)),
     ("C15", "manual Send/Sync impl weaker than the reference / unexpected", pr c15_sendSync, []),
-    ("C15,C14", "key-less hold token without the PhantomData<R::GuardMarker> field (its auto traits no longer follow the raw lock's guard marker)", c15_holdTokenMarkers.map nm, []),
+    ("C15,C14", "key-less hold token that is not unconditionally !Send (no PhantomData over a raw pointer): with a raw lock whose guards may be sent it can be lent to another thread through &mut and swapped with that thread's hold (D18)", c15_holdTokenMarkers.map nm, []),
     ("C15", "scoped closure argument not higher-ranked (D8)",
       pr (c15_closureLifetimes.filter fun x => !recordedClosures.contains x),
       pr (c15_closureLifetimes.filter fun x => recordedClosures.contains x)),
@@ -50,13 +50,15 @@ def report : List (String × String × List String × List String) :=
     ("C15", "Deref does not tie the reference to the guard borrow", c15_derefLifetimes.map nm, []),
     ("C15,C04,C13", "try path reaches a blocking operation", c04_tryReachesBlocking.map nm, []),
     ("C15,C17", "non-acquiring path reaches a blocking operation", c17_nonAcqReachesBlocking.map nm, []),
-    ("C12", "acquiring function of a leaf lock does not test the kill flag again after the raw acquisition (a lock killed while the thread waited, or while its try was in flight, still hands out a guard)", pr c12_killFlagProtocol, []),
-    ("C12", "raw operation of a leaf lock not wrapped in the recovery that stores the kill flag", pr c12_recovery, []),
-    ("C16", "ownership-sensitive primitive (forget / leak / from_raw / drop_in_place / MaybeUninit / transmute …) in a function no ownership model covers", pr c16_unauditedSensitive, []),
-    ("C16", "audited function no longer has an ownership record", pr c16_auditedMissing, []),
-    ("C16", "BoxedLockCollection: call sequence not recognised, or not clean on the heap-cell model (double free / leak / use after free / payload dropped twice or never)", c16_boxedLife.map nm, []),
-    ("C16", "array function is not the fill loop 'slot i := element i' (uninitialised read / leaked value / value at the wrong position)", c16_arrayFills.map nm, []),
-    ("C16", "unlock_all_* forgets something other than the payload of a caught panic", c16_payloadForget.map nm, []) ]
+    ("C12", "[reading] acquiring function of a leaf lock: no second test of the kill flag after the raw acquisition found in its call record (if the test is really gone, a lock killed while the thread waited, or while its try was in flight, still hands out a guard)", pr c12_killFlagProtocol, []),
+    ("C12", "[reading] raw operation of a leaf lock not followed by the recovery that stores the kill flag in its call record", pr c12_recovery, []),
+    ("C16", "[reading] ownership-sensitive primitive (forget / leak / from_raw / drop_in_place / MaybeUninit / transmute …) in a function no ownership model covers", pr c16_unauditedSensitive, []),
+    ("C16", "[reading] audited function no longer has an ownership record", pr c16_auditedMissing, []),
+    ("C16", "[reading] BoxedLockCollection: call sequence not recognised as heap-cell operations", c16_boxedUnread.map nm, []),
+    ("C16", "BoxedLockCollection: the extracted call sequence is not clean on the heap-cell model (double free / leak / use after free / payload dropped twice or never)", c16_boxedLife.map nm, []),
+    ("C16", "[reading] array function not recognised as a MaybeUninit fill loop", c16_arrayUnread.map nm, []),
+    ("C16", "array fill loop writes the wrong slot or takes the value from the wrong element (uninitialised read / leaked value / value at the wrong position)", c16_arrayWrong.map nm, []),
+    ("C16", "[reading] unlock_all_* forgets something other than the payload of a caught panic", c16_payloadForget.map nm, []) ]
 
 def reportText : String :=
   "\n".intercalate (report.map fun (p, r, bad, known) =>
